@@ -416,6 +416,16 @@ class Interp:
             if isinstance(a, Lit) and isinstance(b, Lit):
                 return Lit(a.v ** b.v)
         if isinstance(op, (ast.FloorDiv, ast.Mod)):
+            if isinstance(a, Num) or isinstance(b, Num):
+                # amounts are continuous: flooring a quotient (or taking a remainder) of a measured value drops the
+                # fractional part, whatever the unit
+                self.sink(node, 'truncating-division', False,
+                          f"`{'//' if isinstance(op, ast.FloorDiv) else '%'}` on a measured amount drops the fractional part "
+                          f"of the quotient: the result is a whole number of units")
+                ua, ub = self.as_unit(a, node), self.as_unit(b, node)
+                if ua is None or ub is None:
+                    return Lit(0.0)
+                return Num(ua / ub if isinstance(op, ast.FloorDiv) else ua)
             return Other('intarith')
         self.incomplete(node, f"operator {type(op).__name__}")
 
